@@ -440,8 +440,8 @@ def run_hist(case):
 
 
 def legs(tier):
-    return [Leg('call', _case_call(), run_call, 3000, 100000, max_shrink_buckets=10),
-            Leg('history', _case_hist(), run_hist, 500, 16000, max_shrink_buckets=8)]
+    return [Leg('call', _case_call(), run_call, 10000, 100000, max_shrink_buckets=10),
+            Leg('history', _case_hist(), run_hist, 2000, 16000, max_shrink_buckets=8)]
 
 
 REGIONS = {}
